@@ -524,6 +524,23 @@ func main() {
 		addStr("syncVerifyOrder", calls(syncf.fn("Task", "reloadAndVerify"), map[string]bool{
 			"repClient.ReloadReplica": true, "s.UpdateLUNMap": true, "t.client.VerifyRebuildReplica": true,
 			"repClient.SetRebuilding": true}))
+		// which part of the two chains the rebuild compares and transfers: everything ABOVE the newcomer's
+		// checkpoint (exclusive) — below it the two directories may differ in layout (C07)
+		{
+			var cuts []string
+			ast.Inspect(syncf.fn("Task", "isRevisionCountAndChainSame"), func(x ast.Node) bool {
+				if a, ok := x.(*ast.AssignStmt); ok && len(a.Rhs) == 1 {
+					if _, ok := a.Rhs[0].(*ast.SliceExpr); ok {
+						cuts = append(cuts, src(a))
+					}
+				}
+				if r, ok := x.(*ast.ReturnStmt); ok {
+					cuts = append(cuts, src(r))
+				}
+				return true
+			})
+			addStr("syncCheckpointCut", strings.Join(cuts, " ; "))
+		}
 		addStr("cloneReplicaOrder", calls(syncf.fn("Task", "CloneReplica"), map[string]bool{
 			"toClient.SetRebuilding": true, "t.syncFiles": true, "toClient.UpdateCloneInfo": true,
 			"toClient.ReloadReplica": true, "s.UpdateLUNMap": true}))
